@@ -318,10 +318,10 @@ def oracle_roundtrip(case, obs, exp, sids, dppart, key):
 
     bad = []
     sna, pna = obs["sna"], obs["pna"]
-    dna = dppart.note_array()
     dec = {}
-    for r in dna:
-        dec.setdefault(str(r["id"]), []).append(r)
+    for n in dppart.notes:
+        dec.setdefault(str(n["id"]), []).append(
+            {"onset_sec": float(n["note_on"]), "duration_sec": float(n["note_off"]) - float(n["note_on"]), "velocity": int(n["velocity"])})
     pairs = {str(sna["id"][s]): (s, p) for s, p in exp}
     if sorted(dec) != sorted(pairs) or any(len(v) != 1 for v in dec.values()):
         return [(key + "_ids", "decoded performance has notes %r, expected one per matched score note %r" % (sorted(dec), sorted(pairs)))]
@@ -389,10 +389,275 @@ def oracle_timemaps(case, obs, exp):
             break
     ms = [m for _, m in knots]
     if all(b - a > Fraction(1, 10 ** 5) for a, b in zip(ms, ms[1:])):
-        # the other direction, evaluated at the implementation's own (single precision) knot
+        # the other direction, evaluated at the implementation's own (single precision) knot;
+        # scipy evaluates in single precision, amplified by the steepest segment
+        slope = max([0.0] + [float((u1 - u0) / (m1 - m0)) for (u0, m0), (u1, m1) in zip(knots, knots[1:])])
         for u, m in knots:
             v = float(np.asarray(p2s(float(np.asarray(s2p(float(u)))))))
-            if not abs(v - float(u)) <= 1e-6 * max(1.0, abs(float(u))):
+            if not abs(v - float(u)) <= 16 * F32 * max(1.0, float(abs(ms[-1])), float(abs(ms[0]))) * max(1.0, slope) + 1e-6 * max(1.0, abs(float(u))):
                 bad.append(("tmaps_p2s", "ptime_to_stime(stime_to_ptime(%g)) = %.9g, expected the score onset back" % (float(u), v)))
                 break
     return bad
+
+
+# ----------------------------------------------------------------------------
+# correspondence: case -> Coq term (input AND the implementation's observed output)
+
+
+def case_term(case, obs):
+    """Coq term of type c18_case, or None when an output needed for it is missing."""
+    import numpy as np
+
+    sna, pna = obs["sna"], obs["pna"]
+    if obs["matched_idx"] is None or obs["enc"] is None or obs["tmaps"] is None:
+        return None
+    codes = {}
+
+    def code(x):
+        return codes.setdefault(str(x), len(codes))
+
+    srows = [ctuple([cz(code(r["id"])), cq(fr(r["onset_beat"])), cq(fr(r["duration_beat"])), cz(int(r["onset_div"])), cz(int(r["pitch"]))])
+             for r in sna]
+    prows = [ctuple([cz(code("P:" + str(r["id"]))), cq(fr(r["onset_sec"])), cq(fr(r["duration_sec"])), cz(int(r["velocity"]))]) for r in pna]
+    al = []
+    for a in case["align"]:
+        s = code(a["score_id"]) if "score_id" in a else -2
+        p = code("P:" + str(a["performance_id"])) if "performance_id" in a else -3
+        al.append(ctuple([cz(0 if a["label"] == "match" else 1), cz(s), cz(p)]))
+    mi = obs["matched_idx"]
+    midx = [ctuple([cz(int(r[0])), cz(int(r[1]))]) for r in np.asarray(mi).reshape(-1, 2)] if len(mi) else []
+    params, sids, uidx = obs["enc"]
+    sidc = [cz(code(s)) for s in sids]
+    norm_i = NORMS.index(case["norm"])
+    names = list(params.dtype.names)[4:]
+    prm, ncols = [], []
+    for r in params:
+        prm.append(ctuple([cq(fr(r["beat_period"])), cq(fr(r["velocity"])), cq(fr(r["timing"])),
+                           cq(Fraction(2.0 ** float(r["articulation_log"])))]))
+        cols = []
+        for nm in names:
+            v = float(r[nm])
+            if nm.endswith("_log"):
+                v = 2.0 ** v
+            cols.append(cq(Fraction(v)))
+        ncols.append(clist(cols))
+    exp = expected_matches(case, sna, pna)
+    pon = [float(pna["onset_sec"][p]) for _, p in exp] or [0.0]
+    span = max(pon) - min(pon)
+    dec_terms, decmode = [], 0
+    if obs.get("dec") is not None and norm_i in (0, 2):
+        decmode = 1
+        for n in obs["dec"].notes:
+            on, off = float(n["note_on"]), float(n["note_off"])
+            if not (math.isfinite(on) and math.isfinite(off)):
+                return None
+            dec_terms.append(ctuple([cz(code(n["id"])), cq(Fraction(on)), cq(Fraction(off) - Fraction(on)), cz(int(n["velocity"]))]))
+    dtol = Fraction(2, 10 ** 6) * max(1, Fraction(span))
+    # time-map probes
+    knots = [(u, m) for u, m in timemap_knots(case, obs, exp) if m is not None]
+    p2s, s2p = obs["tmaps"]
+    tests = []
+    us = [u for u, _ in knots]
+    ms = [m for _, m in knots]
+    slopes = [abs((m1 - m0) / (u1 - u0)) for (u0, m0), (u1, m1) in zip(knots, knots[1:])]
+    xs = list(us) + [(a + b) / 2 for a, b in zip(us, us[1:])] + ([us[0] - 1, us[-1] + Fraction(3, 2)] if us else [])
+    vals = []
+    for x in xs:
+        y = float(np.asarray(s2p(float(x))))
+        if math.isfinite(y):
+            tests.append((True, x, y))
+            vals.append(abs(y))
+    amp = max([1] + [float(s) for s in slopes])
+    monotone = len(ms) >= 2 and all(b - a > Fraction(1, 1000) for a, b in zip(ms, ms[1:]))
+    if monotone:
+        inv = [abs((u1 - u0) / (m1 - m0)) for (u0, m0), (u1, m1) in zip(knots, knots[1:])]
+        amp = max([amp] + [float(s) for s in inv])
+        for x in [(a + b) / 2 for a, b in zip(ms, ms[1:])] + [ms[0] - 1, ms[-1] + 1]:
+            y = float(np.asarray(p2s(float(x))))
+            if math.isfinite(y):
+                tests.append((False, x, y))
+                vals.append(abs(y))
+    ttol = Fraction(1, 10 ** 5) * Fraction(max([1.0] + vals)) * Fraction(amp)
+    tterm = clist([ctuple(["true" if d else "false", cq(x), cq(Fraction(y))]) for d, x, y in tests])
+    return ("(%s, %s, %s, %s, (%s, %s, %s, %s, (%s, %s, %s)), (%s, %s, %s))" % (
+        ctuple([cz(METHODS.index(case["method"])), cz(norm_i)]), clist(srows), clist(prows), clist(al),
+        clist(midx), clist(sidc), clist(prm), clist(ncols), cz(decmode), cq(dtol), clist(dec_terms),
+        "true" if case["remove_ornaments"] else "false", cq(ttol), tterm))
+
+
+IMPORTS = "From PV Require Import Model.C18 Model.C18_Check."
+BITS = ["get_matched_notes index table", "snote_ids / matched score order", "onset groups form a partition and agree between encoder and decoder",
+        "tempo curve positive", "beat_period/velocity/timing/articulation parameters", "normalisation columns",
+        "decode_performance output", "time-map values"]
+
+
+def sub_case(case, keep_ids):
+    """The case restricted to the score notes in keep_ids (and what refers to them)."""
+    keep = set(keep_ids)
+    notes = [n for n in case["notes"] if n["id"] in keep]
+    dropped = {n["id"] for n in case["notes"]} - keep
+    al = [a for a in case["align"] if a.get("score_id") not in dropped]
+    used = {a.get("performance_id") for a in al}
+    perf = [p for p in case["perf"] if p["id"] in used or p["id"][0] in "xy"]
+    c = dict(case)
+    c.update(notes=notes, align=al, perf=perf)
+    return c
+
+
+def fail_codes(case):
+    try:
+        obs = run_impl(case)
+        return [c for c, _ in oracle(case, obs)]
+    except Exception as e:
+        return ["harness:" + type(e).__name__]
+
+
+def shrink(case, code):
+    ids = [n["id"] for n in case["notes"]]
+    if len(ids) > 60:
+        return case
+    kept = core.ddmin(ids, lambda sub: code in fail_codes(sub_case(case, sub)))
+    return sub_case(case, kept)
+
+
+def classify(code):
+    c = code.replace("dec_all", "dec")
+    return c
+
+
+def run(ctx):
+    ctx.rule = ("Generated single-part scores (1-12 score onsets; single notes, chords, 2-3 voices, unisons, grace notes, pickup, "
+                "6 time signatures, 9 division values), one performed note per score note (flavours: musical tempo walk with chord "
+                "spread, unrelated random positive IOIs, deadpan dyadic, wild = arbitrary times, single onset), shuffled alignments "
+                "with deletions, insertions, ornaments and matches whose score/performance id does not exist; one of 5 normalisations "
+                "x 2 tempo methods per case (thorough: additionally all 10 configurations on a sub-sample).  Distinct non-trivial = "
+                "distinct cases with >= 2 score onsets of which at least one carries >= 2 matched notes.")
+    ctx.trusted = ["Coq 8.16.1 kernel incl. vm_compute", "harness/props/c18.py: generator, partitura object builder, printers of note arrays "
+                   "and implementation outputs as exact rationals, Python-side 2** applied to logarithmic columns before comparison",
+                   "numpy/scipy float arithmetic (modelled by exact rationals within the declared tolerances)",
+                   "Part.note_array / PerformedPart.note_array (the codec's inputs are taken from them; their content is property C05/C14's concern)"]
+    ctx.assumptions = ["float32 fields compared with relative 5e-7 (4 ulp) + 1e-7 absolute; fields that pass through log2/2** with relative 1e-5",
+                       "decoded onsets compared up to 2e-6 * max(1, performance span); decoded durations relative 1e-5",
+                       "exp2/log2 and sqrt are not modelled in Q: logarithmic columns are exponentiated in Python, the standard deviation is "
+                       "compared through its square; their inverse laws are proved over R (Proofs/C18_real.v)",
+                       "generated distinct score onsets differ by >= 1/480 beat, so float and exact grouping agree"]
+    ctx.matchers["C18-K1"] = lambda r: isinstance(r, dict) and str(r.get("code", "")).endswith("_dur_grace")
+    ctx.matchers["C18-K2"] = lambda r: isinstance(r, dict) and str(r.get("code", "")).endswith("_dur_floor")
+    ok, why = ctx.coq_props(expect_min=1)
+    n_cases = 150 if ctx.tier == "quick" else 2200
+    n_full = 0 if ctx.tier == "quick" else 80
+    rng = ctx.rng
+    cases = []
+    for k in range(n_cases):
+        cases.append(gen_case(rng, rng.choice([3, 5, 8, 12])))
+    for k in range(n_full):
+        base = gen_case(rng, rng.choice([3, 6]))
+        for nm in NORMS:
+            for me in METHODS:
+                c = dict(base)
+                c.update(norm=nm, method=me)
+                cases.append(c)
+    terms, kept = [], []
+    reported = set()
+    n_viol = 0
+    for case in cases:
+        try:
+            obs = run_impl(case)
+            bad = oracle(case, obs)
+        except Exception as e:  # a crash outside the functions under test (building the part, note arrays)
+            import traceback
+            bad = [("harness", traceback.format_exc()[-600:])]
+            obs = None
+        ctx.evaluations += 1
+        ctx.count("flavour:" + case["flavour"])
+        ctx.count("norm:" + case["norm"])
+        ctx.count("method:" + case["method"])
+        if any(n["grace"] for n in case["notes"]):
+            ctx.count("has_grace")
+        if case["pickup"]:
+            ctx.count("has_pickup")
+        if any(a["label"] not in ("match",) for a in case["align"]):
+            ctx.count("has_insertion_deletion_or_ornament")
+        if obs is not None and obs.get("enc") is not None:
+            uidx = obs["enc"][2]
+            if len(uidx) >= 2 and any(len(u) >= 2 for u in uidx):
+                ctx.nontrivial(json.dumps(case, sort_keys=True))
+        seen_here = set()
+        for code, msg in bad:
+            cl = classify(code)
+            if cl in seen_here:
+                continue
+            seen_here.add(cl)
+            known = cl.endswith("_dur_grace") or cl.endswith("_dur_floor")
+            if known:
+                ctx.violation(msg, {"code": cl, "case": case})
+                continue
+            if n_viol >= 5 or cl in reported:
+                n_viol += 1
+                continue
+            reported.add(cl)
+            n_viol += 1
+            small = shrink(case, code) if code != "harness" else case
+            ctx.violation("C18 fails on the implementation [%s]: %s" % (code, msg), {"code": cl, "case": small, "message": msg})
+        if obs is not None and not any(not (c.endswith("_dur_grace") or c.endswith("_dur_floor")) for c, _ in bad):
+            t = case_term(case, obs)
+            if t is None:
+                ctx.count("correspondence_skipped")
+            else:
+                terms.append(t)
+                kept.append(case)
+    ctx.sample({"case": cases[0]})
+    ctx.obligation("direct oracle: decode(encode) / matched notes / time maps on %d generated cases" % len(cases), n_viol == 0,
+                   "%d failing observations" % n_viol)
+    if not ok and n_viol == 0:
+        ctx.violation("proof obligations of Props/C18.v no longer check: " + why, {"theorem_or_build": why}, no_input=True)
+    try:
+        failing = ctx.coq_failing("codec", IMPORTS, "", terms, "c18_check", shard=40 if ctx.tier == "quick" else 100, timeout=1500)
+        err = None
+    except RuntimeError as e:
+        failing, err = [], str(e)
+    ctx.obligation("correspondence: Model/C18.v = implementation (matched table, snote_ids, parameter array, normalisation columns, "
+                   "decoded notes, time maps) on %d cases" % len(terms), err is None and not failing, err or failing[:5])
+    if err is not None:
+        ctx.violation("the model could not be evaluated: " + err[-800:], {"coq_error": err[-2000:]}, no_input=True)
+    for i in failing[:3]:
+        bits = ctx.coq_eval(IMPORTS, "c18_check_bits %s" % terms[i])
+        flags = re_bools(bits)
+        what = [BITS[k] for k, b in enumerate(flags) if not b]
+        ctx.violation("model and implementation disagree on: %s" % (", ".join(what) or bits[-300:]),
+                      {"code": "correspondence", "disagree": what, "case": kept[i]})
+    ctx.extra["exhaustive"] = False
+    ctx.extra["cases_in_correspondence"] = len(terms)
+
+
+def re_bools(text):
+    import re
+    m = re.search(r"=\s*\[(.*?)\]\s*:\s*list bool", text, flags=re.S)
+    if not m:
+        return []
+    return [t.strip() == "true" for t in m.group(1).split(";")]
+
+
+def replay(obj):
+    core.setup_import_path()
+    r = obj.get("replay", obj)
+    case = r.get("case")
+    print(json.dumps({k: v for k, v in obj.items() if k != "replay"}, indent=1, default=str))
+    if not case:
+        print(json.dumps(r, indent=1, default=str))
+        return 0
+    obs = run_impl(case)
+    print("score note array:", obs["sna"][["onset_beat", "duration_beat", "onset_div", "pitch", "id"]])
+    print("performance note array:", obs["pna"][["onset_sec", "duration_sec", "velocity", "id"]])
+    print("alignment:", case["align"])
+    print("normalisation:", case["norm"], "method:", case["method"], "remove_ornaments:", case["remove_ornaments"])
+    for k in ("matched_idx", "mscore", "enc"):
+        print(k, "=", obs.get(k), obs.get(k + "_exc", ""))
+    if obs.get("dec") is not None:
+        print("decoded:", [(str(n["id"]), float(n["note_on"]), float(n["note_off"]) - float(n["note_on"]), int(n["velocity"])) for n in obs["dec"].notes])
+    else:
+        print("decode:", obs.get("dec_exc"))
+    print("property failures on the implementation:")
+    for c, m in oracle(case, obs):
+        print("  [%s] %s" % (c, m))
+    return 0
